@@ -102,8 +102,20 @@ class RunLab(object):
             lab.on_step(state, context, sid + " " + rest)
 
         @self.async_run_until_complete
-        async def step_async(context, sid, rest):
+        async def async_plain(context, sid, rest):
             lab.on_step(state, context, sid + " " + rest)
+
+        @self.async_run_until_complete(timeout=60)
+        async def async_with_timeout(context, sid, rest):
+            # the parametrised form of the decorator takes another code path (asyncio.wait + re-raise of the task's exception)
+            state.in_async_with_timeout = True
+            try:
+                lab.on_step(state, context, sid + " " + rest)
+            finally:
+                state.in_async_with_timeout = False
+
+        def step_async(context, sid, rest):
+            (async_with_timeout if int(sid[1:]) % 2 else async_plain)(context, sid, rest)
 
         def step_bad(context, sid, rest):      # never reached: the converter raises first
             state.calls.append(("<bad-called>", sid + " " + rest))
@@ -131,6 +143,8 @@ class RunLab(object):
             if oc == "error":
                 # "raises any other exception": the class varies with the step text (deterministic, replayable)
                 exc = ERROR_CLASSES[zlib.crc32(text.encode("utf-8")) % len(ERROR_CLASSES)]
+                if getattr(state, "in_async_with_timeout", False) and zlib.crc32(text.encode("utf-8")) % 2 == 0:
+                    exc = TimeoutError          # the step's OWN TimeoutError is an ordinary exception (error), not the decorator's timeout
                 state.seen_error_classes.add(exc.__name__)
                 raise exc(state.messages.get(text, "boom in %s" % text))
             if oc == "pending":
@@ -170,6 +184,8 @@ class RunLab(object):
                 state.events.append(("hook",) + rec)
                 state.in_user_code += 1
                 try:
+                    if state.user_skip and name in ("before_feature", "before_rule") and getattr(elem, "name", None) in state.user_skip:
+                        elem.skip(reason="skipped by environment.py")
                     for plug in state.hook_plugins:
                         plug(state, context, name, elem, tag)
                     fault = state.hook_fault
@@ -216,6 +232,7 @@ class RunLab(object):
         st.hook_fault = hook_fault
         st.faults_fired = []
         st.step_plugins, st.hook_plugins = list(step_plugins), list(hook_plugins)
+        st.user_skip = set(program.get("user_skip") or ()) if isinstance(program, dict) else set()
         st.in_user_code = 0
 
         # -- process-wide state snapshot
@@ -232,8 +249,21 @@ class RunLab(object):
             sys.stdout, sys.stderr = st.real_out, st.real_err
         st.escaped = None
         st.verdict = None
+        st.features, st.runner, st.config, st.stream_after = (features or []), None, None, (sys.stdout, sys.stderr)
         try:
-            config = self.Configuration(list(args), load_config=False)
+            try:
+                config = self.Configuration(list(args), load_config=False)
+            except Exception as ex:
+                # a legal command line must give a Configuration: reported through the same channel as an exception that
+                # escapes the run (every property module checks obs.escaped first)
+                st.escaped = ex
+                st.setup_failed = True
+                return_early = True
+            else:
+                return_early = False
+            if return_early:
+                st.elem_status, st.step_status, st.step_names, st.elem_kind, st.order = {}, {}, {}, {}, []
+                return st
             config.reporters = list(reporters(config)) if reporters else []
             st.config = config
             if features is None:
